@@ -99,6 +99,28 @@ static unsigned vp_flags(void)
 #endif
 }
 
+static void vp_parse_witnesses(const struct r3986 *R, size_t len)
+{
+	if (len == VP_L) VP_WITNESS("parse: accepted at full length");
+	if (R->has_query && R->has_frag) VP_WITNESS("parse: query and fragment");
+#ifdef VP_WIT_SCHEME
+	if (R->has_scheme && R->has_auth && R->path_len > 0) VP_WITNESS("parse: scheme + authority + path");
+#endif
+#ifdef VP_WIT_PORT
+	if (R->port >= 0 && R->has_userinfo) VP_WITNESS("parse: userinfo and port");
+#endif
+#ifdef VP_WIT_V6
+	if (R->host_bracketed && R->asked_v6) VP_WITNESS("parse: IPv6 literal");
+	if (R->host_bracketed && !R->asked_v6) VP_WITNESS("parse: IPvFuture literal");
+#endif
+#ifdef VP_WIT_UNIX
+	if (R->has_unix && R->path_len > 0) VP_WITNESS("parse: unix socket with path");
+#endif
+#ifdef VP_WIT_UNIX_UI
+	if (R->has_unix && R->has_userinfo) VP_WITNESS("parse: unix socket with userinfo");
+#endif
+}
+
 void harness_parse(void)
 {
 	unsigned char s[VP_L + 1];
@@ -147,9 +169,7 @@ void harness_parse(void)
 
 #endif
 #ifdef VP_ONLY_SPLIT
-	if (len == VP_L) VP_WITNESS("parse: accepted at full length");
-	if (R.has_scheme && R.has_auth && R.path_len > 0) VP_WITNESS("parse: scheme + authority + path");
-	if (R.has_query && R.has_frag) VP_WITNESS("parse: query and fragment");
+	vp_parse_witnesses(&R, len);
 	evhttp_uri_free(u1);
 	VP_ASSERT(vp_alloc_calls == vp_free_calls, "C28: evhttp_uri_free leaves memory behind");
 #else
@@ -170,22 +190,136 @@ void harness_parse(void)
 	VP_ASSERT(vp_opt_streq(evhttp_uri_get_query(u1), evhttp_uri_get_query(u2)), "C28: query changed by join+parse");
 	VP_ASSERT(vp_opt_streq(evhttp_uri_get_fragment(u1), evhttp_uri_get_fragment(u2)), "C28: fragment changed by join+parse");
 
-	if (len == VP_L) VP_WITNESS("parse: accepted at full length");
-	if (R.has_scheme && R.has_auth && R.path_len > 0) VP_WITNESS("parse: scheme + authority + path");
-	if (R.has_query && R.has_frag) VP_WITNESS("parse: query and fragment");
-#ifdef VP_WIT_PORT
-	if (R.port >= 0 && R.has_userinfo) VP_WITNESS("parse: userinfo and port");
-#endif
-#ifdef VP_WIT_V6
-	if (R.host_bracketed && R.asked_v6) VP_WITNESS("parse: IPv6 literal");
-	if (R.host_bracketed && !R.asked_v6) VP_WITNESS("parse: IPvFuture literal");
-#endif
-#ifdef VP_WIT_UNIX
-	if (R.has_unix && R.path_len > 0) VP_WITNESS("parse: unix socket with path");
-	if (R.has_unix && R.has_userinfo) VP_WITNESS("parse: unix socket with userinfo");
-#endif
+	vp_parse_witnesses(&R, len);
 	evhttp_uri_free(u1);
 	evhttp_uri_free(u2);
 	VP_ASSERT(vp_alloc_calls == vp_free_calls, "C28: evhttp_uri_free leaves memory behind");
 #endif
+}
+
+/* ------------------------------------------------------------------ setters
+ * A URI is built with evhttp_uri_new + evhttp_uri_set_flags + the setters; which components are set, and
+ * their contents (strings of at most VP_K* bytes, port any int in [-2, 70000]), are chosen by the solver.
+ * If every setter accepts:  evhttp_uri_join either refuses (NULL) or its output parses -- with the flags
+ * given to evhttp_uri_set_flags -- into exactly the components that were set (a path that was never set,
+ * or set to NULL, compares equal to the empty path: a parsed URI always has a path).
+ * A refused setter must leave the component as it was (checked through the getters).
+ * VP_K* < 0: that component is never set in this obligation.
+ */
+#ifndef VP_KS
+#define VP_KS 1
+#endif
+#ifndef VP_KU
+#define VP_KU 1
+#endif
+#ifndef VP_KH
+#define VP_KH 2
+#endif
+#ifndef VP_KX
+#define VP_KX -1
+#endif
+#ifndef VP_KP
+#define VP_KP 3
+#endif
+#ifndef VP_KQ
+#define VP_KQ 1
+#endif
+#ifndef VP_KF
+#define VP_KF 1
+#endif
+#define VP_KMAX 8
+#define VP_POS(k) ((k) > 0 ? (k) : 0)
+#define VP_SJMAX (VP_POS(VP_KS) + VP_POS(VP_KU) + VP_POS(VP_KH) + VP_POS(VP_KX) + VP_POS(VP_KP) + VP_POS(VP_KQ) + VP_POS(VP_KF) + 22)
+
+/* draws "set this component?" and a C string of at most k bytes; returns NULL when not set */
+static const char *vp_component(char *store, int k)
+{
+	size_t n, i;
+	if (k < 0 || !vp_bool()) return NULL;
+	n = (size_t)vp_range(0, (uint64_t)k);
+	for (i = 0; i < VP_KMAX; i++) {
+		if ((int)i < k) {
+			store[i] = (char)vp_u8();
+			if (i >= n) store[i] = 0; else __CPROVER_assume(store[i] != 0);
+		} else store[i] = 0;
+	}
+	store[VP_KMAX] = 0;
+	return store;
+}
+
+void harness_setters(void)
+{
+	char cs[VP_KMAX + 1], cu[VP_KMAX + 1], ch[VP_KMAX + 1], cx[VP_KMAX + 1], cp[VP_KMAX + 1], cq[VP_KMAX + 1], cf[VP_KMAX + 1];
+	char buf[VP_SJMAX];
+	const char *scheme, *userinfo, *host, *usock, *path, *query, *fragment;
+	struct evhttp_uri *u, *u2;
+	unsigned flags = vp_flags();
+	int port, setport, r, stripped;
+	char *j;
+
+	vp_v6_verdict = vp_bool();
+	u = evhttp_uri_new();
+	__CPROVER_assume(u != NULL);
+	evhttp_uri_set_flags(u, flags);
+
+	scheme = vp_component(cs, VP_KS);
+	userinfo = vp_component(cu, VP_KU);
+	host = vp_component(ch, VP_KH);
+	usock = vp_component(cx, VP_KX);
+	path = vp_component(cp, VP_KP);
+	query = vp_component(cq, VP_KQ);
+	fragment = vp_component(cf, VP_KF);
+	setport = vp_bool();
+	port = (int)vp_range(0, 70002) - 2;
+
+	r = 0;
+	if (scheme && evhttp_uri_set_scheme(u, scheme) < 0) { r = -1; VP_ASSERT(evhttp_uri_get_scheme(u) == NULL, "C28: refused evhttp_uri_set_scheme changed the scheme"); }
+	if (userinfo && evhttp_uri_set_userinfo(u, userinfo) < 0) { r = -1; VP_ASSERT(evhttp_uri_get_userinfo(u) == NULL, "C28: refused evhttp_uri_set_userinfo changed the userinfo"); }
+	if (host && evhttp_uri_set_host(u, host) < 0) { r = -1; VP_ASSERT(evhttp_uri_get_host(u) == NULL, "C28: refused evhttp_uri_set_host changed the host"); }
+	if (usock && evhttp_uri_set_unixsocket(u, usock) < 0) { r = -1; VP_ASSERT(evhttp_uri_get_unixsocket(u) == NULL, "C28: refused evhttp_uri_set_unixsocket changed the socket"); }
+	if (setport && evhttp_uri_set_port(u, port) < 0) { r = -1; VP_ASSERT(evhttp_uri_get_port(u) == -1, "C28: refused evhttp_uri_set_port changed the port"); }
+	if (path && evhttp_uri_set_path(u, path) < 0) { r = -1; VP_ASSERT(evhttp_uri_get_path(u) == NULL, "C28: refused evhttp_uri_set_path changed the path"); }
+	if (query && evhttp_uri_set_query(u, query) < 0) { r = -1; VP_ASSERT(evhttp_uri_get_query(u) == NULL, "C28: refused evhttp_uri_set_query changed the query"); }
+	if (fragment && evhttp_uri_set_fragment(u, fragment) < 0) { r = -1; VP_ASSERT(evhttp_uri_get_fragment(u) == NULL, "C28: refused evhttp_uri_set_fragment changed the fragment"); }
+	if (r < 0) {
+		VP_WITNESS("setters: a component was refused");
+		return;
+	}
+	if (!setport) port = -1;
+	stripped = host && host[0] == '[' && (flags & EVHTTP_URI_HOST_STRIP_BRACKETS);
+	/* what the getters report is what was set (IP-literal without brackets under HOST_STRIP_BRACKETS) */
+	VP_ASSERT(vp_opt_streq(evhttp_uri_get_scheme(u), scheme) && vp_opt_streq(evhttp_uri_get_userinfo(u), userinfo) &&
+	    vp_opt_streq(evhttp_uri_get_unixsocket(u), usock) && evhttp_uri_get_port(u) == port && vp_opt_streq(evhttp_uri_get_path(u), path) &&
+	    vp_opt_streq(evhttp_uri_get_query(u), query) && vp_opt_streq(evhttp_uri_get_fragment(u), fragment), "C28: getter does not return what the setter accepted");
+	if (!stripped)
+		VP_ASSERT(vp_opt_streq(evhttp_uri_get_host(u), host), "C28: evhttp_uri_get_host does not return what evhttp_uri_set_host accepted");
+
+	j = evhttp_uri_join(u, buf, sizeof(buf));
+	if (j == NULL) {
+		VP_WITNESS("setters: join refuses");
+		return;
+	}
+	VP_ASSERT(j == buf, "C28: evhttp_uri_join returns its buffer");
+	u2 = evhttp_uri_parse_with_flags(buf, flags);
+	VP_ASSERT(u2 != NULL, "C28: URI built with the setters joins into a string that does not parse");
+	if (u2 == NULL) return;
+	VP_ASSERT(vp_opt_streq(evhttp_uri_get_scheme(u), evhttp_uri_get_scheme(u2)), "C28: setters+join: scheme does not survive");
+	VP_ASSERT(vp_opt_streq(evhttp_uri_get_userinfo(u), evhttp_uri_get_userinfo(u2)), "C28: setters+join: userinfo does not survive");
+	VP_ASSERT(vp_opt_streq(evhttp_uri_get_host(u), evhttp_uri_get_host(u2)), "C28: setters+join: host does not survive");
+	VP_ASSERT(vp_opt_streq(evhttp_uri_get_unixsocket(u), evhttp_uri_get_unixsocket(u2)), "C28: setters+join: unix socket does not survive");
+	VP_ASSERT(evhttp_uri_get_port(u) == evhttp_uri_get_port(u2), "C28: setters+join: port does not survive");
+	VP_ASSERT(vp_opt_streq(evhttp_uri_get_path(u) ? evhttp_uri_get_path(u) : "", evhttp_uri_get_path(u2)), "C28: setters+join: path does not survive");
+	VP_ASSERT(vp_opt_streq(evhttp_uri_get_query(u), evhttp_uri_get_query(u2)), "C28: setters+join: query does not survive");
+	VP_ASSERT(vp_opt_streq(evhttp_uri_get_fragment(u), evhttp_uri_get_fragment(u2)), "C28: setters+join: fragment does not survive");
+	if (scheme && host && path && path[0] && query && fragment && port >= 0) VP_WITNESS("setters: full URI round trip");
+	if (!scheme && !host && !usock) VP_WITNESS("setters: relative reference round trip");
+#if VP_KX >= 0
+	if (usock) VP_WITNESS("setters: unix socket URI round trip");
+#endif
+#ifdef VP_WIT_V6
+	if (stripped) VP_WITNESS("setters: stripped IP-literal round trip");
+#endif
+	evhttp_uri_free(u);
+	evhttp_uri_free(u2);
+	VP_ASSERT(vp_alloc_calls == vp_free_calls, "C28: evhttp_uri_free leaves memory behind");
 }
